@@ -288,6 +288,15 @@ def calculate_nd_frequencies(
     ...
 
 
+def _widen_weights(weights: np.ndarray) -> np.ndarray:
+    """Weights in 64 bits: their sums and squares must not wrap around or be rounded in a narrow element type."""
+    if weights.dtype.kind in "iub" and weights.dtype.itemsize < 8:
+        return weights.astype(np.int64)
+    if weights.dtype.kind == "f" and weights.dtype.itemsize < 8:
+        return weights.astype(np.float64)
+    return weights
+
+
 def calculate_nd_frequencies(
     data: Optional[np.ndarray],
     binnings: Iterable[BinningBase],
@@ -337,6 +346,7 @@ def calculate_nd_frequencies(
     else:
         if data is None:
             raise ValueError("Weights specified but data not.")
+        weights = _widen_weights(np.asarray(weights))
         if data.shape[0] != weights.shape[0]:
             raise ValueError("Different number of entries in data and weights.")
         if dtype:
@@ -439,7 +449,7 @@ def calculate_1d_frequencies(
     # Prepare 1D numpy array of weights
     if weights is not None:
         # TODO: It should be an array already
-        weights_array = weights
+        weights_array = _widen_weights(np.asarray(weights))
         if weights_array.ndim > 1:
             weights_array = weights_array.flatten()
 
